@@ -95,6 +95,29 @@ class Gram:
                         return False
         return self.productive_rules() == names and self.reachable_rules() == names
 
+    def reduced(self):
+        """the grammar restricted to productive rules reachable from the start rule
+        (None if the start rule is unproductive)"""
+        g = self
+        for _ in range(len(self.rules) + 2):
+            prod = g.productive_rules()
+            if g.start not in prod:
+                return None
+            rules = []
+            for n, ps in g.rules:
+                if n not in prod:
+                    continue
+                keep = [(syms, pr) for syms, pr in ps if all(k == 't' or x in prod for k, x in syms)]
+                rules.append((n, keep))
+            g2 = Gram(g.tokens, [(n, [(sy, pr) for sy, pr in ps]) for n, ps in rules], precs=g.precs, start=g.start,
+                      avoid_insert=g.avoid_insert, expect=g.expect, expectrr=g.expectrr, implicit=g.implicit)
+            reach = g2.reachable_rules()
+            g2.rules = [(n, ps) for n, ps in g2.rules if n in reach]
+            if g2.is_reduced():
+                return g2
+            g = g2
+        return None
+
     def used_tokens(self):
         u = []
         for _, ps in self.rules:
@@ -303,6 +326,130 @@ def not_lalr_template(rng):
         # embed: T: S | T 'z' S
         g = Gram(toks + ['z'], [("T", [[('r', 'S')], [('r', 'T'), ('t', 'z'), ('r', 'S')]])] + g.rules, start="T")
     return g
+
+
+def layered_grammar(rng):
+    """Top-down declared grammar: shared rules reached through several contexts (also through
+    unit productions declared AFTER the rule they wrap), nullable tails, rules nullable only
+    through token-free unit chains of later rules.  Targets late-arriving lookaheads in the
+    closure and late-converging FIRST/nullable fixed points."""
+    toks = list("abcdxyzo")
+    k = rng.randint(2, 4)                      # number of shared "body" rules
+    bodies = ["R%d" % i for i in range(k)]
+    wraps = ["Q%d" % i for i in range(rng.randint(1, 3))]
+    opts = ["O%d" % i for i in range(rng.randint(1, 3))]
+    chains = ["N%d" % i for i in range(rng.randint(0, 3))]      # N0: N1; N1: N2; N2: ;
+    leafs = ["X%d" % i for i in range(rng.randint(1, 2))]
+    ends = ["x", "y", "z"]
+    rules = []
+    # start: several contexts, each a shared rule (or a wrapper) followed by a distinct token
+    alts = []
+    ctxs = bodies + wraps
+    rng.shuffle(ctxs)
+    for i, c in enumerate(ctxs[:rng.randint(2, min(4, len(ctxs)))]):
+        alt = [('r', c)]
+        if rng.random() < 0.85:
+            alt.append(('t', ends[i % 3]))
+        if rng.random() < 0.25:
+            alt.insert(0, ('t', rng.choice("ab")))
+        alts.append(alt)
+    rules.append(("S", alts))
+
+    def tail():
+        t = []
+        for _ in range(rng.randint(0, 2)):
+            t.append(('r', rng.choice(opts + chains)) if (opts + chains) else ('t', 'o'))
+        return t
+
+    order = []
+    for b in bodies:
+        order.append(("body", b))
+    for q in wraps:
+        order.append(("wrap", q))
+    # wrappers mostly AFTER the bodies they wrap, sometimes interleaved
+    if rng.random() < 0.3:
+        rng.shuffle(order)
+    for kind, n in order:
+        if kind == "body":
+            alts = []
+            for _ in range(rng.randint(1, 2)):
+                head = ('r', rng.choice(leafs)) if rng.random() < 0.7 else ('t', rng.choice("abcd"))
+                alt = [head] + tail()
+                if rng.random() < 0.2:
+                    alt = [('r', rng.choice(opts + chains))] + alt if (opts + chains) else alt
+                alts.append(alt)
+            if rng.random() < 0.2 and len(bodies) > 1:
+                alts.append([('r', rng.choice([x for x in bodies if x != n]))])
+            uniq = []
+            for a_ in alts:
+                if a_ not in uniq:
+                    uniq.append(a_)
+            rules.append((n, uniq))
+        else:
+            tgt = rng.choice(bodies)
+            alt = [('r', tgt)] + (tail() if rng.random() < 0.3 else [])
+            rules.append((n, [alt]))
+    for x in leafs:
+        rules.append((x, [[('t', rng.choice("abcd"))] for _ in range(rng.randint(1, 2))]))
+    for i, o in enumerate(opts):
+        first = [('t', 'o')] if rng.random() < 0.6 else [('t', rng.choice("cd")), ('r', o)]
+        rules.append((o, [first, []] if rng.random() < 0.5 else [[], first]))
+    for i, n in enumerate(chains):
+        if i + 1 < len(chains):
+            rules.append((n, [[('r', chains[i + 1])]] + ([[('t', 'd')]] if rng.random() < 0.3 else [])))
+        else:
+            rules.append((n, [[]]))
+    # dedupe alternatives inside each rule, drop duplicate leaf alternatives
+    out = []
+    for n, ps in rules:
+        u = []
+        for p_ in ps:
+            if p_ not in u:
+                u.append(p_)
+        out.append((n, u))
+    return Gram(toks, out, start="S")
+
+
+def chain_grammar(rng):
+    """small top-down declared grammars whose nullability / FIRST information has to travel
+    through a token-free unit chain of later rules (the analyses' fixed points converge late)"""
+    depth = rng.randint(2, 5)
+    chain = ["N%d" % i for i in range(depth)]
+    rules = []
+    shape = rng.randint(0, 3)
+    item_alts = []
+    for _ in range(rng.randint(1, 2)):
+        alt = [('r', chain[0])] if rng.random() < 0.8 else []
+        alt += [('t', rng.choice("fg"))] + [('t', 'i')] * rng.randint(0, 1)
+        if rng.random() < 0.4:
+            alt.append(('r', chain[rng.randrange(depth)]))
+        if rng.random() < 0.5:
+            alt.append(('t', 's'))
+        item_alts.append(alt)
+    if shape == 0:
+        rules += [("S", [[('r', 'L')]]), ("L", [[], [('r', 'L'), ('r', 'I')]]), ("I", item_alts)]
+    elif shape == 1:
+        rules += [("S", [[('r', 'I'), ('t', 'x')], [('t', 'a'), ('r', 'I'), ('t', 'y')]]), ("I", item_alts)]
+    elif shape == 2:
+        rules += [("S", [[('r', 'W'), ('t', 'x')], [('r', 'I'), ('t', 'y')]]), ("W", [[('r', 'I')]]), ("I", item_alts)]
+    else:
+        rules += [("S", [[('r', 'I'), ('r', 'S')], [('t', 'e')]]), ("I", item_alts)]
+    for i, n in enumerate(chain):
+        if i + 1 < depth:
+            alts = [[('r', chain[i + 1])]]
+            if rng.random() < 0.25:
+                alts.append([('t', 'd'), ('t', 'd')])
+            rules.append((n, alts))
+        else:
+            rules.append((n, [[]]))
+    uniq = []
+    for n, ps in rules:
+        u = []
+        for p_ in ps:
+            if p_ not in u:
+                u.append(p_)
+        uniq.append((n, u))
+    return Gram(list("fgisxyaed"), uniq, start="S")
 
 
 def classic_corpus():
